@@ -160,6 +160,9 @@ let dispatch (cmd : string) (args : sx list) : sx =
                 e_eag = list_ cand_ eag; e_laz = list_ cand_ laz; e_enum = list_ cand_ enum } in
       let (o, fams) = select e in
       L [w_outcome o; w_list w_fam fams]
+  | "combined", [ms] ->
+      let c = combined (list_ cnode_ ms) in
+      L [w_opt (w_list w_nat) c.c_list; w_nat c.c_min; w_bool c.c_rep]
   | "neighborhood", [vs] ->
       let nv_ x = match lst x with [n; c; f] -> ((nat_ n, z_ c), bool_ f) | _ -> failwith "nvar" in
       w_list (w_list w_z) (neighborhood (list_ nv_ vs))
